@@ -14,8 +14,34 @@ import (
 // transportImpls: every implementation of RpcReadWriter.Read/Write in scope, with its own ctx parameter.
 func (p *Prog) transportImpls() map[string]*ssa.Function {
 	out := map[string]*ssa.Function{}
-	for _, k := range []string{"goat.goatOverWebsocket.Read", "goat.goatOverWebsocket.Write", "goat.httpReadWriter.Read", "goat.httpReadWriter.Write", "int.fnReadWriter.Read", "int.fnReadWriter.Write"} {
-		out[k] = p.MustFn(k)
+	// every named type in scope whose method set satisfies types.RpcReadWriter
+	iface, _ := p.byPkg[scopePkgs["types"]].Members["RpcReadWriter"].(*ssa.Type)
+	if iface == nil {
+		panic(UnresolvedError{"interface types.RpcReadWriter"})
+	}
+	it := iface.Type().Underlying().(*types.Interface)
+	for short, path := range scopePkgs {
+		sp := p.byPkg[path]
+		for name, m := range sp.Members {
+			tn, ok := m.(*ssa.Type)
+			if !ok {
+				continue
+			}
+			if _, isIface := tn.Type().Underlying().(*types.Interface); isIface {
+				continue
+			}
+			if types.Implements(types.NewPointer(tn.Type()), it) || types.Implements(tn.Type(), it) {
+				for _, meth := range []string{"Read", "Write"} {
+					k := short + "." + name + "." + meth
+					out[k] = p.MustFn(k)
+				}
+			}
+		}
+	}
+	for _, k := range []string{"goat.goatOverWebsocket.Read", "goat.httpReadWriter.Read", "int.fnReadWriter.Read"} {
+		if out[k] == nil {
+			panic(UnresolvedError{"transport implementation " + k})
+		}
 	}
 	for _, parent := range []string{"goat.NewGoatOverChannel", "client.RpcMultiplexer.NewStreamReadWriter", "goat.handler.runStream"} {
 		r, w := p.rwClosures(p.MustFn(parent))
